@@ -419,7 +419,16 @@ pub const CAP: f64 = 12.0;
 pub const GROW: f64 = 1.8;
 pub const GROW_MIN_STEPS: u64 = 60_000;
 
+/// `base_n` carries the haystack shape in its bits 40.. (so that it travels through the replay file with
+/// it): 0 = the tile everywhere, 1 = the tile in the first half and a foreign byte in the second (what a
+/// forward traversal leaves behind it is quiet), 2 = the mirror image.
+const SHAPE_SHIFT: u32 = 40;
+fn split_base(base_n: usize) -> (usize, u8) {
+    (base_n & ((1usize << SHAPE_SHIFT) - 1), (base_n >> SHAPE_SHIFT) as u8)
+}
+
 fn scaled(spec: &NeedleSpec, pieces: &[Piece], base_n: usize, k: usize) -> (Vec<u8>, Vec<u8>) {
+    let (base_n, shape) = split_base(base_n);
     let mut sp = spec.clone();
     // needles below 65 bytes are NOT scaled (1-byte needles, the vector searchers, Rabin-Karp: scaling the
     // needle would change the strategy); only the haystack grows and the cost per byte must not
@@ -446,6 +455,13 @@ fn scaled(spec: &NeedleSpec, pieces: &[Piece], base_n: usize, k: usize) -> (Vec<
             hay.extend_from_slice(&tile);
         }
         hay.truncate(total);
+    }
+    if shape == 1 || shape == 2 {
+        let q = subgen::foreign_byte(&needle, 0x00);
+        let (from, to) = if shape == 1 { (total / 2, total) } else { (0, total / 2) };
+        for b in hay[from..to].iter_mut() {
+            *b = q;
+        }
     }
     (needle, hay)
 }
@@ -499,7 +515,7 @@ fn parse_piece(s: &str) -> Option<Piece> {
 /// Re-judge one generated family (replay).
 fn judge_generated(ctx: &Ctx, spec: &NeedleSpec, pieces: &[Piece], base_n: usize, op: u8) -> Option<Value> {
     let trace = std::env::var("MV_STEPS_TRACE").is_ok();
-    let scales: Vec<usize> = if trace { vec![1, 2, 4, 8, 16, 32, 64] } else if base_n <= 4096 && spec.len <= 128 { vec![1, 4, 16, 64] } else { vec![1, 4, 16] };
+    let scales: Vec<usize> = if trace { vec![1, 2, 4, 8, 16, 32, 64] } else if split_base(base_n).0 <= 4096 && spec.len <= 128 { vec![1, 4, 16, 64] } else { vec![1, 4, 16] };
     let mut c: Vec<f64> = Vec::new();
     let mut stp: Vec<u64> = Vec::new();
     for k in scales.iter() {
@@ -555,14 +571,19 @@ pub fn steps_generic(ctx: &Ctx) -> Frag {
         prop::collection::vec(subgen::piece(), 1..=5),
         prop::sample::select(vec![4096usize, 8192, 16384]),
         2u8..4, // complete traversals only: find_iter / rfind_iter
+        prop::sample::select(vec![0u8, 0, 1, 2, 3]), // 3 = needle-heavy: a long needle and a haystack of twice its length
     );
     let mut runner = crate::ctx::runner_shrink(ctx.stream_seed("steps-generated"), cases, 48);
-    let res = runner.run(&strat, |(mut spec, len, pieces, base_n, op)| {
+    let res = runner.run(&strat, |(mut spec, len, pieces, base_n, op, shape)| {
         let mut s = st.borrow_mut();
         let s = &mut *s;
+        // needle-heavy: construction cost (suffix / period computations) dominates
+        let (len, base_n, shape) = if shape == 3 { let l = 1024 + (len * 37) % 3072; (l, 2 * l, 0u8) } else { (len, base_n, shape) };
         spec.len = len;
+        let plain_n = base_n;
+        let base_n = base_n | ((shape as usize) << SHAPE_SHIFT);
         journal::set_ctx(&format!("{{\"stage\":\"steps-generated\",\"kind\":{},\"len\":{},\"base_n\":{}}}", spec.kind, len, base_n));
-        let scales: Vec<usize> = if base_n <= 4096 && len <= 128 { vec![1, 4, 16, 64] } else { vec![1, 4, 16] };
+        let scales: Vec<usize> = if plain_n <= 4096 && len <= 128 { vec![1, 4, 16, 64] } else { vec![1, 4, 16] };
         let mut c: Vec<f64> = Vec::new();
         let mut stp: Vec<u64> = Vec::new();
         let mut bad: Option<Value> = None;
@@ -584,7 +605,7 @@ pub fn steps_generic(ctx: &Ctx) -> Frag {
                 break; // the larger scales of a family that already failed would only cost time
             }
             if bad.is_none() && growth_trend(&c, &stp).is_some() {
-                bad = Some(step_viol(ctx, &format!("cost per byte keeps growing with the input: {:?} steps per byte at scales {:?} of (n = {}, m = {}) (x{} or more per x4 step, twice in a row, reaching {} per byte)", c.iter().map(|x| (x * 100.0).round() / 100.0).collect::<Vec<_>>(), &scales[..c.len()], base_n, len, GROW, CAP),
+                bad = Some(step_viol(ctx, &format!("cost per byte keeps growing with the input: {:?} steps per byte at scales {:?} of (n = {}, m = {}) (x{} or more per x4 step, twice in a row, reaching {} per byte)", c.iter().map(|x| (x * 100.0).round() / 100.0).collect::<Vec<_>>(), &scales[..c.len()], plain_n, len, GROW, CAP),
                     255, op, hay.len(), needle.len(), 0, &needle, &hay, json!({"gen": gen_json(&spec, &pieces, base_n), "steps": stp.clone(), "scale": k})));
             }
         }
@@ -595,7 +616,7 @@ pub fn steps_generic(ctx: &Ctx) -> Frag {
                 let g = (c[i + 1] / c[i]).min(c[i + 2] / c[i + 1]);
                 if g > s.closest {
                     s.closest = g;
-                    s.closest_at = format!("{:?} (kind {} len {} base_n {})", c, subgen::NEEDLE_KINDS[spec.kind as usize], len, base_n);
+                    s.closest_at = format!("{:?} (kind {} len {} base_n {} shape {})", c, subgen::NEEDLE_KINDS[spec.kind as usize], len, plain_n, shape);
                 }
             }
         }
@@ -604,7 +625,7 @@ pub fn steps_generic(ctx: &Ctx) -> Frag {
             let g = if c[0] > 0.0 { c[last] / c[0] } else { 0.0 };
             if c[last] > s.max_min_ratio {
                 s.max_min_ratio = c[last];
-                s.at = format!("needle kind {} len {} base_n {} op {} pieces {:?}: per-byte cost {:?} (x{:.1})", subgen::NEEDLE_KINDS[spec.kind as usize], len, base_n, OPS[op as usize], pieces, c, g);
+                s.at = format!("needle kind {} len {} base_n {} shape {} op {} pieces {:?}: per-byte cost {:?} (x{:.1})", subgen::NEEDLE_KINDS[spec.kind as usize], len, plain_n, shape, OPS[op as usize], pieces, c, g);
             }
         }
         if s.failed.is_none() {
@@ -615,7 +636,7 @@ pub fn steps_generic(ctx: &Ctx) -> Frag {
                 s.frag.nontrivial_hashes.insert(mvcore::oracle::fnv(&[format!("{:?}{:?}{}{}", spec, pieces, base_n, op).as_bytes()]));
             }
             if s.frag.want_sample() && stp[last] >= GROW_MIN_STEPS {
-                s.frag.sample(json!({"stage":"steps-generated","needle_kind":subgen::NEEDLE_KINDS[spec.kind as usize],"needle_len_at_scale_1":len,"haystack_len_at_scale_1":base_n,"scales":scales.clone(),
+                s.frag.sample(json!({"stage":"steps-generated","needle_kind":subgen::NEEDLE_KINDS[spec.kind as usize],"needle_len_at_scale_1":len,"haystack_len_at_scale_1":plain_n,"haystack_shape":(["tile everywhere","tile then quiet half","quiet half then tile"][shape as usize % 3]),"scales":scales.clone(),
                     "tile":format!("{:?}", pieces),"op":OPS[op as usize],"steps_per_byte":c.clone()}));
             }
         }
